@@ -934,6 +934,48 @@ def parse_bpm_facts():
     return [f"({coq_str(n)}, {'true' if ok else 'false'})" for n, ok in facts]
 
 
+
+# ------------------------------------------------------------------ .NET generator (C19)
+
+def parse_prng_facts():
+    """the statements of util/random/csharp.rs that Model/Prng.v (cnew, csample_int, cnext_max) transcribes and
+    Proofs/CRngProofs.v reasons about; compared as normalised text, so a rewrite of the file has to be mirrored here"""
+    t = norm(strip_test_modules(strip_comments(read("src/util/random/csharp.rs"))))
+    want = [
+        ("csharp.rs: internal_sample subtracts the two table entries, maps i32::MAX to i32::MAX - 1, lifts negatives by i32::MAX and stores the result",
+         "let mut ret_val = self.seed_array[loc_inext as usize] - self.seed_array[loc_inextp as usize]; "
+         "if ret_val == i32::MAX { ret_val -= 1; } if ret_val < 0 { ret_val += i32::MAX; } "
+         "self.seed_array[loc_inext as usize] = ret_val; self.inext = loc_inext; self.inextp = loc_inextp; ret_val"),
+        ("csharp.rs: both cursors advance by one and wrap from 56 to 1",
+         "let mut loc_inext = self.inext; loc_inext += 1; if loc_inext >= 56 { loc_inext = 1; } "
+         "let mut loc_inextp = self.inextp; loc_inextp += 1; if loc_inextp >= 56 { loc_inextp = 1; }"),
+        ("csharp.rs: initialize takes |seed| (i32::MAX for i32::MIN) off the golden-ratio constant",
+         "let subtraction = if unlikely(seed == i32::MIN) { i32::MAX } else { i32::abs(seed) }; "
+         "let mut mj = 161_803_398 - subtraction; seed_array[55] = mj; let mut mk = 1; let mut ii = 0;"),
+        ("csharp.rs: first seeding loop (54 rounds, stride 21 mod 55, mk = mj - mk lifted by i32::MAX)",
+         "for _ in 1..55 { ii += 21; if ii >= 55 { ii -= 55; } seed_array[ii] = mk; mk = mj - mk; "
+         "if mk < 0 { mk += i32::MAX; } mj = seed_array[ii]; }"),
+        ("csharp.rs: four mixing sweeps over 1..56 with a wrapping difference lifted by i32::MAX",
+         "for _ in 1..5 { for i in 1..56 { let mut n = i + 30; if n >= 55 { n -= 55; } "
+         "seed_array[i] = seed_array[i].wrapping_sub(seed_array[1 + n]); "
+         "if seed_array[i] < 0 { seed_array[i] += i32::MAX; } } }"),
+        ("csharp.rs: the cursors start at 0 and 21", "Self { seed_array, inext: 0, inextp: 21, }"),
+        ("csharp.rs: sample = internal_sample * (1 / i32::MAX) in f64, next_max = (sample * max) as i32, next = internal_sample",
+         None),
+    ]
+    facts = []
+    for name, text in want:
+        if text is None:
+            ok = ("f64::from(self.internal_sample()) * (1.0 / f64::from(i32::MAX))" in t
+                  and "(self.prng.sample() * f64::from(max)) as i32" in t
+                  and re.search(r"fn next\(&mut self\) -> i32 \{ self\.prng\.internal_sample\(\) \}", t) is not None)
+        else:
+            ok = t.count(text) == 1
+        facts.append((name, ok))
+    facts.append(("csharp.rs: the table is written only in initialize and internal_sample (5 assignments)",
+                  len(re.findall(r"seed_array\[[^\]]+\]\s*(?:[-+]?=)(?!=)", t)) == 5))
+    return [f"({coq_str(n)}, {'true' if ok else 'false'})" for n, ok in facts]
+
 # ------------------------------------------------------------------ emit
 
 def generate():
@@ -946,6 +988,7 @@ def generate():
     effects, unsafes, features = parse_effects()
     lifetimes = parse_lifetimes()
     bpm_facts = parse_bpm_facts()
+    prng_facts = parse_prng_facts()
     sort_facts = parse_sort_facts()
     setup_facts = parse_setup_facts()
     section_lengths, section_facts = parse_section_facts()
@@ -1029,6 +1072,7 @@ def generate():
     A("Definition section_facts : list (string * bool) :=\n  " + coq_list(section_facts).replace("; (", ";\n   (") + ".")
     A("(* the comparator of Beatmap::bpm that Model/Bpm.v transcribes *)")
     A("Definition bpm_facts : list (string * bool) :=\n  " + coq_list(bpm_facts).replace("; (", ";\n   (") + ".")
+    A("Definition prng_facts : list (string * bool) :=\n  " + coq_list(prng_facts).replace("; (", ";\n   (") + ".")
     A("(* facts the ownership argument of C11 rests on, each checked against the current source *)")
     A("Definition lifetime_facts : list (string * bool) :=\n  " + coq_list(lifetimes).replace("; (", ";\n   (") + ".")
     return "\n".join(L) + "\n"
